@@ -59,7 +59,7 @@ func judge(schema *pgbind.Schema, it xlate.Item, km *xlate.Mapper) verdict {
 	v := verdict{outcome: "ok", rep: rep, sql: o.SQL, updating: updating}
 	sh := shapeOf(q)
 	for _, is := range rep.Issues {
-		is.Class = classOf(is.Class, sh)
+		is.Class = classOf(is.Class, sh) + roleOf(is.Detail)
 		v.issues = append(v.issues, is)
 	}
 	for _, p := range rep.Params {
